@@ -1,7 +1,7 @@
 """definite assignment: a local name that a normal path reads before any statement on that path has bound it (UnboundLocalError at run time).
 
 Paths come from the syntax-directed enumerator (loops entered at least once - "the collection is known to be non-empty" is a common idiom and not
-this rule's business; exception edges are not followed - what a handler may assume about the interrupted statement is not decidable here; what the body of a loop binds counts as bound after the loop).  A path on
+this rule's business; an exception edge is followed only from the last call of a try body - everything the body bound before counts as bound in the handler; what the body of a loop binds counts as bound after the loop).  A path on
 which one name would have to be equal to and different from the same constants (`x in (a, b)` taken, `x == a` and `x == b` refused) is infeasible."""
 import ast
 from .model import FuncT, walk_no_nested, walk_self, src
@@ -152,8 +152,22 @@ def undefined_uses(p, fn):
             found.append((n, src(p.enclosing_stmt(n))[:60] if hasattr(p, "enclosing_stmt") else n.id))
     if not local:
         return found
+    # exception edges: only from the LAST statement of a try body that can raise (a call or await): everything the body bound before it counts as bound
+    # in the handler - optimistic, so that a handler reading what the try body assigned is not reported, while the handler's own code is still walked
+    last_raisers = {}
+    for t in walk_no_nested(fn):
+        if isinstance(t, ast.Try) and t.handlers:
+            cands = [s_ for s_ in t.body if any(isinstance(x, (ast.Call, ast.Await)) for x in walk_self(s_))]
+            if cands:
+                names = []
+                for h in t.handlers:
+                    names += ["BaseException"] if h.type is None else [getattr(x, "attr", getattr(x, "id", "?")) for x in (h.type.elts if isinstance(h.type, ast.Tuple) else [h.type])]
+                last_raisers[id(cands[-1])] = list(dict.fromkeys(names))
+
+    def may_raise(node):
+        return last_raisers.get(id(node), [])
     try:
-        paths = Cfg(lambda n: [], p.issub, unroll=1).seq(fn.body)
+        paths = Cfg(may_raise, p.issub, unroll=1).seq(fn.body)
     except RuntimeError:
         return found
     for ev, out in paths:
